@@ -13,6 +13,12 @@ CLAIMED = {
  "C01": ("who-may-call check over the VTA∪CHA call graph (no render path reaches a Put into a parse-tree pool), store lint on render-reachable functions, per-field must-assign / must-zero dataflow over every pool's acquire and release functions (with interprocedural initialiser summaries), borrow/release typestate in the parser",
          "Decides the ownership clauses for every history: a render can never release, recycle or write the cached tree; every live field of every pooled object is definitely re-initialised between owners; no value is left in two pools; memory borrowed from a pooled tokenizer is not used after the tokenizer's release. Equality of output bytes with a pristine process is argued from these, not observed.",
          "One frozen exception: the tokenizer's interning table survives reuse and is accepted only while its transparency sub-obligation holds. unsafe container-of in ReleaseTokenizer is recognised as 'releases its argument'. " + COMMON_NOTE, "§2 C01"),
+ "C03": ("enumeration of every map-ordered loop (range over map, loops over reflect MapKeys()/MapRange) on render paths from the typed AST + effect classification of the loop body (output writes, unsorted appends, accumulation, first-entry-wins, computed-key stores) + enumeration of time/rand/%p/goroutine sources on render paths against a frozen exemption table",
+         "Decides 'independent of Go's map iteration order and of time/randomness except where exempt by definition' for every template and context: each map-ordered loop is over sorted keys or has no order-dependent effect. Printing of pointer-bearing user values via %v and cross-process equality are not decided.",
+         "The effect classification is a deny-list of order-dependent effects chosen from the defects this code base exhibited (each confirmed by reading); an exotic order-dependent effect outside the list would be missed. " + COMMON_NOTE, "§2 C03"),
+ "C14": ("information-flow lint on SSA: every branch comparing a size value (len/cap/size parameter) with a constant >= 16 on parse/render paths must have equal sets of token/node/output-producing callees in its two exclusive regions; growth sites must copy",
+         "Decides that template length can select capacities only, never which tokenizer/parser/renderer runs, and that buffer growth preserves content. That the one tokenizer treats a tag identically at every byte offset is value-level arithmetic and not decided.",
+         "'Semantic' functions are classified by role (appends to []Token, returns Node/[]Token, writes to io.Writer, or calls such a function). " + COMMON_NOTE, "§2 C14"),
  "C06": ("must-pass-through dataflow on SSA (a sandbox guard querying the policy for the same name dominates every dynamic FilterFunc/FunctionFunc call and built-in arm) + must-assign dataflow for flag inheritance at every derived RenderContext + who-writes-the-flag check",
          "Sound structural argument for the confinement clause on every path of the current source: whenever the context flag is set, a policy query for exactly the invoked name precedes every filter/function invocation, the flag is inherited by every derived context and is never cleared. Liveness ('allowed constructs keep working') is not decided.",
          "Assumes filters/functions are invoked only through values of the named types FilterFunc/FunctionFunc (R06.5 checks none is converted to an interface on render paths); user SecurityPolicy implementations are assumed to answer truthfully. " + COMMON_NOTE, "§2 C06"),
